@@ -236,6 +236,20 @@ PROPS["C14"] = dict(
     assumptions=["tails never start with / or # (which continue a schema) nor with | after a type shortcut"],
     jobs=[job("len", "^TestLen", (2, 16), (5000, 50000), (600, 3000))],
 )
+PROPS["C17"] = dict(
+    pkg="c17", level="exploration", exhaustive_claim=False,
+    technique="bounded-exhaustive enumeration of (file, position) pairs against a reference line/column renderer; generated documents with one planted violation or one byte edit at a printer-known offset",
+    level_text=("(b) every file content of <=6 (quick) / <=7 (thorough) bytes over {a, space, tab, LF, CR} x every position is rendered and compared with a reference written from the statement (1-based line for "
+                "LF/CR/CRLF files, left-trimmed line text, 200-byte cut, caret column, never panics), plus random longer files; (a) parsing errors of byte-edited JSON documents must sit on the first byte that "
+                "cannot continue the text (last byte at premature end), validation errors of documents with one planted violation (wrong kind, unknown key, missing required key, item under an empty example array) "
+                "must sit on the offending value / key / enclosing object."),
+    level_note="trusted: harness/ref/render.go, the reference JSON parser's error offset, the document printer's spans; files mixing newline conventions, all-blank lines and positions on line breaks / inside trimmed blanks have no defined text/caret (only line number and no-panic are asserted)",
+    rule=("render: (content, position) pairs, non-trivial = the file has >=2 lines or leading blanks; parse: one-byte edits/truncations of generated JSON, non-trivial = depth>=1; "
+          "validation: rule-free schemas x instances x one planted violation, non-trivial = planted at depth>=1; distinct by the inputs"),
+    assumptions=["the planted violation is the only deviation (re-checked with the reference shape decider; documents with duplicate keys are skipped)"],
+    jobs=[job("render-exhaustive", "^TestRenderExhaustive$", (1, 1), (1, 1), (900, 3000)),
+          job("generated", "^Test(RenderRandom|ParsePositions|ValidationPositions)$", (3, 16), (3000, 30000), (900, 3000))],
+)
 
 _UNBUILT = "check under construction in this session (see DESIGN.md section 5 for the planned design)"
 NOT_APPLICABLE = [dict(property_id="C%02d" % i, reason=_UNBUILT) for i in range(1, 20) if "C%02d" % i not in PROPS]
